@@ -221,6 +221,8 @@ ORACLES = {
             _oracle('the() with a unique / no / several solutions (threshold conditions)', 150, 2000, kind='the', n=4, distinct_sizes=True),
             _oracle('the() over and_(or_(..), .., ..), evaluated twice', 100, 1500, kind='the', n=4, distinct_sizes=True, shape='and_or'),
             _oracle('the() over equal-looking distinct instances', 60, 600, kind='the', equal_instances=True),
+            _oracle('the() used inside another query: correlated with an outer variable; as the selected term of an enclosing '
+                    'the / an / set_of with a further condition', 200, 3000, kind='the_nested'),
             _oracle('the() evaluated inside a symbolic block', 60, 600, kind='the', inside='query'),
             _oracle('the(set_of(...)): none / one / several solutions', 100, 1500, kind='the', n=4, distinct_sizes=True, setof=True),
             _oracle('the() with predicates, inside a rule block', 60, 800, kind='the', inside='rule', vocab=['pred', 'cmp'], n=4,
@@ -240,7 +242,11 @@ ORACLES = {
     'C15': [_oracle('an(entity) sub-query as a condition, and/or', 150, 2000, kind='subquery'),
             _oracle('correlated sub-query (its condition mentions the outer variable) after other conditions', 150, 2000,
                     kind='subquery', correlated=True),
-            _oracle('the(entity) as a comparison operand, correlated with the enclosing query', 100, 1500, kind='the_operand')],
+            _oracle('the(entity) as a comparison operand, correlated with the enclosing query', 100, 1500, kind='the_operand'),
+            _oracle('one sub-query object used as a condition in several places of the enclosing condition, evaluated twice', 150,
+                    2000, kind='subquery', shared=True),
+            _oracle('the() used inside another query: correlated with an outer variable; as the selected term of an enclosing '
+                    'the / an / set_of with a further condition', 100, 1500, kind='the_nested')],
     'C07': [_oracle('one-shot iterator domains: pulls per result, nothing pulled twice (cache on)', 200, 3000, kind='lazy'),
             _oracle('one-shot iterator domains (cache off)', 100, 1500, kind='lazy', caching=False)],
     'C10': [_oracle('for_all over conditions mentioning the universal variable, the free variables, both or neither', 250, 4000, kind='forall'),
